@@ -2495,4 +2495,13 @@ pub mod verif_hooks_package {
 			&strategy(strat),
 		)
 	}
+
+	/// The payment hashes for which `monitor` has a preimage stored, sorted.
+	pub fn monitor_known_preimages<Signer: EcdsaChannelSigner>(
+		monitor: &crate::chain::channelmonitor::ChannelMonitor<Signer>,
+	) -> Vec<PaymentHash> {
+		let mut hashes: Vec<PaymentHash> = monitor.get_stored_preimages().keys().copied().collect();
+		hashes.sort();
+		hashes
+	}
 }
